@@ -25,7 +25,7 @@ def effective_bounds(dt, kw):
     min_pos = dt(fi.smallest_subnormal if sub else fi.smallest_normal)
     user = mn is not None or mx is not None
     if mn is None:
-        mn = -dt(fi.max) if (mx is not None and mx < 0) else min_pos
+        mn = -dt(fi.max) if (mx is not None and mx <= 0) else min_pos  # a zero upper bound alone selects the negative half-line (as min_value=0 alone selects [0, largest])
     if mx is None:
         mx = -min_pos if (mn is not None and mn < 0) else dt(fi.max)
     mn, mx = dt(mn), dt(mx)
